@@ -11,6 +11,7 @@ import SkNet.Lemmas.Paris
 import SkNet.Lemmas.Reorder
 import SkNet.Lemmas.GetDendroMono
 import SkNet.Lemmas.Builders
+import SkNet.Lemmas.Split
 
 namespace SkNet.C07
 open SkNet SkNet.Dendro SkNet.Hier
@@ -345,5 +346,77 @@ example : (match getHierarchy 3 [[0, 0, 0], [0]] with
       | .ok D => ValidDendro 3 D && (D.map fun (r : Row Int) => (r.i, r.j, r.h, r.s)) == [(2, 1, 1, 2), (3, 0, 1, 3)]
       | .error _ => false
     | none => false) = true := by decide
+
+
+/-! ### split_dendrogram (bipartite input) -/
+
+theorem side_valid {α : Type} {m N off : Nat} {D : Dendro α} (hm : 0 < m) (hN : off + m ≤ N)
+    (hv : ValidDendro N D = true) :
+    ValidDendro m (sideLoop N 0 D (sideInit α m off)).rows = true := by
+  have hlen := valid_length hv
+  have hvl : validLoop N 0 D (liveInit (List.replicate N 1)) = true := by
+    unfold ValidDendro ValidDendroW at hv
+    simp only [Bool.and_eq_true, List.length_replicate] at hv
+    exact hv.2
+  rw [validLoop_eq_isSome] at hvl
+  obtain ⟨Lf, hLf⟩ := Option.isSome_iff_exists.mp hvl
+  have hinit : LInv N 0 (liveInit (List.replicate N 1)) := by simpa using linv_init (List.replicate N 1)
+  obtain ⟨LR, hS⟩ := sideLoop_sinv D 0 _ _ _ Lf (sinv_init (α := α) m N off hm hN) hinit hLf
+  -- a single live cluster is left in the full dendrogram, hence on the side
+  have hLfLen : Lf.length = 1 := by
+    have := (liveAfter_linv D 0 _ Lf hinit hLf).2
+    simp only [liveInit, List.length_map, List.length_range, List.length_replicate] at this
+    omega
+  have hidle : (sideLoop N 0 D (sideInit α m off)).id.length ≤ 1 := by
+    have hk : (Dict.keys Lf).length = 1 := by simp [Dict.keys, hLfLen]
+    match hkeys : Dict.keys Lf, hk with
+    | [z], _ =>
+      have hall : ∀ x ∈ Dict.keys (sideLoop N 0 D (sideInit α m off)).id, x = z := by
+        intro x hx
+        have := hS.sub x hx
+        rw [hkeys] at this
+        simpa using this
+      have hnd := hS.idNodup
+      generalize hks : Dict.keys (sideLoop N 0 D (sideInit α m off)).id = ks at hall hnd
+      have hkl : (sideLoop N 0 D (sideInit α m off)).id.length = ks.length := by
+        rw [← hks]; simp [Dict.keys]
+      rw [hkl]
+      match ks, hall, hnd with
+      | [], _, _ => simp
+      | [_], _, _ => simp
+      | a :: b :: _, hall, hnd =>
+        have ha := hall a (by simp)
+        have hb := hall b (by simp)
+        rw [ha, hb] at hnd
+        simp at hnd
+  have hcount := hS.count
+  have hpos := hS.pos
+  have hrows := (liveAfter_linv _ 0 _ LR (by simpa using linv_init (List.replicate m 1)) hS.live).2
+  simp only [liveInit, List.length_map, List.length_range, List.length_replicate] at hrows
+  unfold ValidDendro ValidDendroW
+  simp only [List.length_replicate, Bool.and_eq_true, beq_iff_eq]
+  refine ⟨by omega, ?_⟩
+  rw [validLoop_eq_isSome, hS.live]; rfl
+
+/-- **split_dendrogram** (`split_valid`): for a valid dendrogram over the `n1 + n2` nodes of a bipartite graph
+    (rows first), `split_dendrogram` returns a valid dendrogram over the `n1` rows and a valid dendrogram over the
+    `n2` columns (`n1 - 1` and `n2 - 1` merges, sizes counting the rows, resp. columns, below each merge). -/
+theorem split_valid {α : Type} {D : Dendro α} {n1 n2 : Nat} (h1 : 0 < n1) (h2 : 0 < n2)
+    (hv : ValidDendro (n1 + n2) D = true) :
+    ∃ R C, splitDendrogram D n1 n2 = .ok (R, C) ∧ ValidDendro n1 R = true ∧ ValidDendro n2 C = true := by
+  have hlen := valid_length hv
+  have ha := side_valid (m := n1) (N := n1 + n2) (off := 0) h1 (by omega) hv
+  have hb := side_valid (m := n2) (N := n1 + n2) (off := n1) h2 (by omega) hv
+  refine ⟨_, _, ?_, ha, hb⟩
+  unfold splitDendrogram
+  have e1 : ¬ (D.length < n1 + n2 - 1) := by omega
+  have e2 : D.take (n1 + n2 - 1) = D := List.take_of_length_le (by omega)
+  simp only [e1, if_false, e2, splitLoop_eq]
+  rfl
+
+/-- non-vacuity: a 2 × 2 biadjacency matrix, full dendrogram over the 4 nodes -/
+example : ValidDendro 4 ([⟨0, 2, 1, 2⟩, ⟨1, 3, 1, 2⟩, ⟨4, 5, 2, 4⟩] : Dendro Nat) = true ∧
+    (splitDendrogram ([⟨0, 2, 1, 2⟩, ⟨1, 3, 1, 2⟩, ⟨4, 5, 2, 4⟩] : Dendro Nat) 2 2).toOption =
+      some ([⟨0, 1, 2, 2⟩], [⟨0, 1, 2, 2⟩]) := by decide
 
 end SkNet.C07
